@@ -382,8 +382,9 @@ class T02(py2gal.Translator):
         it = self.src(s.iter)
         # loop-carried variables: assigned in the body AND bound before the loop
         vars_ = [(n, self.types[n]) for n in self.assigned_in(s.body) if n in self.types]
-        params = [(n, t) for n, t in self.types.items() if not n.endswith('__') and '__' not in n or n in dict(vars_)]
-        params = [(n, t) for n, t in self.types.items()]
+        # parameters in a canonical (alphabetical) order: reordering independent statements of the source does not change the text
+        vars_ = sorted(vars_)
+        params = sorted((n, t) for n, t in self.types.items())
         free = [(n, t) for n, t in params if n not in dict(vars_)]
         allp = free + vars_
         lname = '%s_loop%d' % (self.name, len(self.loops) + 1)
